@@ -30,6 +30,7 @@ type State struct {
 type callRec struct {
 	key   string
 	named map[string]Val
+	heap  map[string]string // the caller's heap immediately before the call (for atcall(e))
 }
 
 type deferred struct {
@@ -77,6 +78,8 @@ type Env struct {
 	heap     map[string]string // current heap (nil entries resolved lazily to initial constants)
 	old      *Env              // environment for old(...)
 	bound    map[string]Val    // quantifier-bound / macro params (innermost first via copy)
+	callHeap map[string]string // heap immediately before the call a must-call/all-calls clause is evaluated for
+	callee   map[string]Val    // parameter/result names of the callee a caller-side clause talks about; outer(e) hides them
 	st       *State            // for lazily created heap constants (shared maps)
 }
 
